@@ -45,6 +45,7 @@ class C08:
     def __init__(self, ctx: Ctx):
         self.ctx = ctx
         self.file = ctx.index.module(DET).relpath
+        self.crossed = []
 
     # ------------------------------------------------------------------ helpers
     def base_seq(self, s: Summary, t):
@@ -346,6 +347,12 @@ class C08:
             if undecided is not None:
                 ctx.undec("R08.3", site, f"cannot tell which {side}s the source {show(undecided)[:60]} covers")
                 continue
+            cr = [c for kk, c in self.crossed if kk == k]
+            if cr:
+                ctx.bad("R08.3", self.file, "evaluate_clip", f"{side} index {show(cr[0])[:70]}",
+                        f"the matcher's {side} index is translated as `{show(cr[0])[:100]}`: a paired {side} is turned into None (it then "
+                        f"appears in no match) or the None of an unpaired entry is used as an index", s.node.lineno)
+                continue
             preds = [p for p in pieces if p != "none"]
             if preds == ["all"]:
                 ctx.ok("R08.3", site, f"every {side} reaches the match loop (matcher over the whole list)")
@@ -433,6 +440,21 @@ class C08:
                 else:
                     ctx.bad("R08.4", self.file, "evaluate_clip", f"{cname}: Match(score={show(scorev)[:30]})",
                             f"an {cname} must get score 0, found {show(scorev)[:40]}", a.lineno)
+        # the one-sided entries that do not come from the matcher carry their affinity as a literal: it must be 0 as well
+        for src in sources:
+            if self.is_matcher(src):
+                continue
+            e_ = self.elt_of(s, src)
+            if e_ is None or e_[0][0] != "tuple" or len(e_[0][1]) < 3:
+                continue
+            a3 = e_[0][1][2]
+            one_sided = NONE in e_[0][1][:2]
+            if a3[0] == "const" and a3[1] == 0 and a3[1] is not False:
+                ctx.ok("R08.4", site, f"entries of {show(src)[:50]} carry affinity 0")
+            elif one_sided:
+                ctx.bad("R08.4", self.file, "evaluate_clip", f"one-sided entry {show(e_[0])[:50]}",
+                        f"the one-sided entries built by `{show(src)[:90]}` carry affinity {show(a3)[:30]}: an unpaired sound event must "
+                        f"report affinity 0", s.node.lineno, witness={"entry": show(e_[0])[:80]})
         # the matches list given to ClipEvaluation and to the mean is the list appended to
         return s, apps
 
@@ -530,6 +552,12 @@ class C08:
             doms = self.domains(s, comp)
             if any(d[0] in ("unknown", "illtyped") for d in doms):
                 return None
+            # the matcher's index is translated only where it is an index: None stays None, an index never becomes None
+            mi = ("sub", ("elem", lid), ("const", k))
+            at_none = peval(comp, {("cmp", "is", mi, NONE): True, ("cmp", "isnot", mi, NONE): False})
+            at_some = peval(comp, {("cmp", "is", mi, NONE): False, ("cmp", "isnot", mi, NONE): True})
+            if comp != mi and (at_none != NONE or at_some == NONE):
+                self.crossed.append((k, comp))
             p = seq_positions(seq) if seq is not None else None
             return None if p is None else [p]
         el = ("elem", lid)
@@ -655,6 +683,16 @@ class C08:
                         "labelled 'sound_event_detection'", s.node.lineno)
         else:
             ctx.undec("R08.6", site, "Evaluation(...) construction not found")
+        # path-sensitive reading of both means: a non-empty selection gives the mean, the empty one 0 (two scenarios of the guards)
+        from . import evalflow as ef
+        if len(ce) == 1 and lst is not None:
+            kw = callkw(ce[0])
+            if kw.get("score") is not None and kw.get("matches") is not None:
+                ef.check_mean(ctx, "R08.6", s_clip, kw["score"], kw["matches"], "clip score", "evaluate_clip", zero_when_empty=True)
+        if len(ev) == 1:
+            kw = callkw(ev[0])
+            if kw.get("score") is not None and kw.get("clip_evaluations") is not None:
+                ef.check_mean(ctx, "R08.6", s, kw["score"], kw["clip_evaluations"], "overall score", "sound_event_detection", zero_when_empty=True)
         # _mean itself
         ms = ctx.summ.of_func(DET, "_mean")
         site = f"{self.file}:{ms.node.lineno} _mean"
@@ -696,6 +734,13 @@ def run(ctx: Ctx):
     c.check_clips()
     got = c.check_evaluate_clip()
     c.check_pair_score()
+    # the pair score is what classification_score returns: the probability at the true class (evaluation/metrics.py is anchored)
+    from .c09 import C09
+    C09(ctx).probability_wrapper("classification_score", "R08.5", "R08.5")
+    # provenance typing from the entry point: annotations / predictions are never crossed on their way into the result objects
+    from . import evalflow as ef
+    fl = ef.Flow(ctx, DET, "sound_event_detection").run()
+    ef.check_objects(ctx, "R08.1", fl, "sound_event_detection", True)
     if got:
         c.check_means(*got)
     # "paired only if their geometries overlap" and the reported affinity rest on the matcher (anchored file
@@ -708,4 +753,10 @@ def run(ctx: Ctx):
     from . import c06
     with ctx.delegated("C06/"):
         c06.run_for_detection(ctx)
+    # "appears in exactly one match" is enforced at construction by the ClipEvaluation validator (anchored file
+    # data/clip_evaluations.py, named as the backstop): C04's validator rules are necessary conditions
+    from .c04 import C04
+    with ctx.delegated("C04/"):
+        ctx.rule("R04.2", "relational validators: registered, reject exactly the specified condition, otherwise return input", 13)
+        C04(ctx).check_validators()
     return EXPLANATION, ASSUMPTIONS
